@@ -412,8 +412,11 @@ def run(ctx):
               sample={"cases": sorted(map(str, cases))})
     # the placement / rights / en-passant writers do what their calls are taken to mean (toggle a piece, set a right,
     # set the file) and keep the hash in step: C10's lock-step rule, re-run here
-    from . import c10
+    from . import c10, c15
     expl_ = ctx.explanation
     c10.run(ctx)
+    # "playing a legal move": the public ways to play are wrappers around the function analysed above; they must hand it
+    # the very move they were given (owned by C15; re-run here)
+    c15.check_wrappers(ctx, f)
     ctx.explanation = expl_
     ctx.assumptions += ["old half-move clock within 0..=100 (C06 gate; preserved by this rule and C14)", "castling is encoded as king-takes-own-rook (C01 dispatch/king generator)"]
